@@ -185,6 +185,7 @@ def rotations(c, rebound, exe):
 
     lines, expect, meta = [], [], []
     tolf = {}           # line index -> tolerance factor (condition number of the construction)
+    slerp_short = {}
 
     def add(line, exp, tag, soft=False):
         lines.append(line)
@@ -482,6 +483,10 @@ def rotations(c, rebound, exe):
                 q2 = list(q1)
             if i % 4 == 1:
                 q2 = [-x for x in q1]
+                if i % 8 == 5:      # nearly antipodal: the short-cut branch returns a nearly zero quaternion
+                    eps_ = 10 ** -rng.uniform(5, 9)
+                    q2 = [-x + eps_ * rng.normal() for x in q1]
+                    n_ = math.sqrt(math.fsum(x * x for x in q2)); q2 = [x / n_ for x in q2]
             if i % 4 == 2:
                 eps = 10 ** -rng.uniform(3, 9)
                 q2 = [x + eps * rng.normal() for x in q1]
@@ -501,6 +506,16 @@ def rotations(c, rebound, exe):
                 note("slerp_great_circle", e)
                 if not e <= 1e-12:
                     fails.append(("slerp", "slerp result is not on the great circle at parameter t", dict(q1=q1, q2=q2, t=t, got=res)))
+            elif abs(cs) < 1 - 1e-13 and abs(math.fsum(a * a for a in q1) - 1) < 1e-12 and abs(math.fsum(a * a for a in q2) - 1) < 1e-12 \
+                    and math.sqrt(1 - cs * cs) < 0.5e-4:
+                # short-cut branch |sin theta| < QUATERNION_EPS: the mean (q1+q2)/2, |.|^2 = (1 + q1.q2)/2 (theorem c20_slerp_shortcuts)
+                res = ql(qsl)
+                e = abs(math.fsum(a * a for a in res) - (1 + cs) / 2)
+                note("slerp_shortcut_norm2_is_(1+c)/2", e)
+                slerp_short["cases"] = slerp_short.get("cases", 0) + 1
+                slerp_short["min_norm2"] = min(slerp_short.get("min_norm2", 1.0), math.fsum(a * a for a in res))
+                if not e <= 1e-12:
+                    fails.append(("slerp-shortcut", "slerp short-cut branch is not the mean of its arguments", dict(q1=q1, q2=q2, t=t, got=res)))
         except (ValueError, OverflowError, ZeroDivisionError) as ex:
             _lc = locals()
             fails.append(("nonfinite:rotation-constructors", "the real code returned a non-finite value where the oracle expects a number (%r)" % (ex,),
@@ -616,6 +631,7 @@ def rotations(c, rebound, exe):
         npy += 1
         c.count(("pyrotation", i % 20))
     c.cov["python_rotation_class_cases"] = npy
+    c.cov["slerp_shortcut_branch"] = slerp_short
     # simulation / particle rotation = the vector rotation on every particle (positions and velocities),
     # energy and |L| preserved (oracle: exact rational kinetic energy and pair distances)
     nsim = 60 if c.thorough else 15
@@ -628,10 +644,26 @@ def rotations(c, rebound, exe):
             sim.add_variation()
         pre = [(p.m, [p.x, p.y, p.z], [p.vx, p.vy, p.vz]) for p in sim.particles]
         E0 = sim.energy(); L0 = sim.angular_momentum()
+        o0 = sim.particles[1].orbit(primary=sim.particles[0])
+        o0v = (o0.a, o0.e, vl(o0.hvec), vl(o0.evec))
         qv = runit(rng)
         r = mkq(qv)
         sim.rotate(r)
         E1 = sim.energy(); L1 = sim.angular_momentum()
+        # orbital elements of the rotated system (reb_orbit_from_particle on the real code): h and the eccentricity
+        # vector rotate as vectors (theorem c20_rotate_orbit_vectors); e and the inclination from the rotated z axis are unchanged
+        o1 = sim.particles[1].orbit(primary=sim.particles[0])
+        hs_ = math.sqrt(sum(x * x for x in o0v[2])) or 1.0
+        eh = max(abs(a - b) for a, b in zip(vl(o1.hvec), vl(F["vec3d_rotate"](V(*o0v[2]), r)))) / hs_
+        ee = max(abs(a - b) for a, b in zip(vl(o1.evec), vl(F["vec3d_rotate"](V(*o0v[3]), r)))) / max(1.0, o0v[1])
+        zr = vl(F["vec3d_rotate"](V(0.0, 0.0, 1.0), r))
+        ci0 = o0v[2][2] / hs_
+        ci1 = sum(a * b for a, b in zip(vl(o1.hvec), zr)) / hs_
+        note("orbit_hvec_rotates", eh); note("orbit_evec_rotates", ee); note("orbit_e_invariant", abs(o1.e - o0v[1]) / max(1.0, o0v[1]))
+        note("orbit_cos_inc_wrt_rotated_z", abs(ci1 - ci0))
+        if not (eh <= 1e-13 and ee <= 1e-12 and abs(o1.e - o0v[1]) <= 1e-12 * max(1.0, o0v[1]) and abs(ci1 - ci0) <= 1e-13):
+            fails.append(("orbit-rotate", "orbital elements of the rotated system are not the rotated elements (h, e vector, e, inclination)",
+                          dict(q=qv, pre=pre[:2], h0=o0v[2], h1=vl(o1.hvec), e0=o0v[3], e1=vl(o1.evec))))
         for k, p in enumerate(sim.particles):
             wantx = vl(F["vec3d_rotate"](V(*pre[k][1]), r)); wantv = vl(F["vec3d_rotate"](V(*pre[k][2]), r))
             if [d2h(x) for x in [p.x, p.y, p.z, p.vx, p.vy, p.vz]] != [d2h(x) for x in wantx + wantv]:
@@ -769,6 +801,9 @@ def frame(c, rebound, exe):
 
     nsim = 5000 if c.thorough else 250
     untouched_hel = 0
+    hel_votes = {}
+    hel_fd = 0
+    hel_fd_bad = 0
     for case in range(nsim):
         try:
             r = rng.fork()
@@ -879,10 +914,65 @@ def frame(c, rebound, exe):
                 add("tohel " + " ".join(hv(pre[i][0], pre[i][col]) for i in range(N)), [posth[i][col] for i in range(N)], ("move_to_hel", k, N))
                 if posth[0][col] != 0.0 or any(Fr(posth[i][col]) != Fr(pre[i][col] - pre[0][col]) for i in range(1, N)):
                     fails.append(("move-to-hel", "move_to_hel: particle 0 not at the origin / others not relative to it", dict(component=k, pre=[pre[i][col] for i in range(N)], post=[posth[i][col] for i in range(N)])))
-            if all(posth[i] == pre[i] for i in range(N, sim.N)):
-                untouched_hel += 1 if sim.N > N else 0
-            else:
-                c.cov["move_to_hel_touches_variational_particles"] = True
+            # variational particles under move_to_hel.  Tie: both model variants (as found: untouched; repaired:
+            # variation of particle 0 subtracted); search: the variational particles of the moved simulation must
+            # be the derivative of the moved coordinates — oracle 1: exact (dx_i - dx_0), oracle 2: finite
+            # differences of two shadow simulations (base, base + h*variation) each moved to hel by the real code
+            for (order, index, tp, ia, ib) in vc:
+                if tp >= 0:
+                    same = posth[index] == pre[index]
+                    if tp != 0:
+                        if not same:        # both variants leave the variation of a test particle other than 0 alone
+                            hel_votes["x"] = hel_votes.get("x", 0) + 1
+                    else:
+                        zeroed = posth[index][1:] == [0.0] * 6 and posth[index][0] == pre[index][0]
+                        if same and not zeroed:
+                            hel_votes["0"] = hel_votes.get("0", 0) + 1
+                        elif zeroed and not same:
+                            hel_votes["1"] = hel_votes.get("1", 0) + 1
+                        elif not same:
+                            hel_votes["x"] = hel_votes.get("x", 0) + 1
+                    continue
+                for ci, k in enumerate(COMPS6):
+                    col = 1 + ci
+                    vin = [pre[index + i][col] for i in range(N)]
+                    vout = [posth[index + i][col] for i in range(N)]
+                    for vv in ("0", "1"):
+                        lines.append("tohelvar" + vv + " " + hv(*vin)); expect.append(" ".join(d2h(x) for x in vout)); meta.append(("move_to_hel_var" + vv, k, N))
+                    want = [0.0] + [float(Fr(vin[i]) - Fr(vin[0])) for i in range(1, N)]
+                    sc_ = max([abs(x) for x in vin] + [1.0])
+                    e = max(abs(a - b) for a, b in zip(vout, want)) / sc_
+                    note("move_to_hel_var_vs_exact_derivative", e if e < 1e-3 else 0.0)
+                    if not e <= 1e-14:
+                        untouched = all(d2h(a) == d2h(b) for a, b in zip(vin, vout))
+                        fails.append(("C20:move_to_hel-variations" if untouched else "move-to-hel-var-unexpected",
+                                      "after move_to_hel the order-%d variational particles are not the derivative of the heliocentric coordinates (d x_i - d x_0)%s"
+                                      % (order, ": they are left untouched" if untouched else ""),
+                                      dict(component=k, order=order, N=N, x=[pre[i][col] for i in range(N)], variation_before=vin, variation_after=vout, derivative=want)))
+                if order == 1 and hel_fd < (400 if c.thorough else 60):
+                    # shadow simulations through the real code
+                    hel_fd += 1
+                    hstep = 2.0 ** -20
+                    sA, sB = rebound.Simulation(), rebound.Simulation()
+                    for i in range(N):
+                        sA.add(m=pre[i][0], x=pre[i][1], y=pre[i][2], z=pre[i][3], vx=pre[i][4], vy=pre[i][5], vz=pre[i][6])
+                        sB.add(m=pre[i][0] + hstep * pre[index + i][0], **{k: pre[i][1 + ci] + hstep * pre[index + i][1 + ci] for ci, k in enumerate(COMPS6)})
+                    clib.reb_simulation_move_to_hel(ctypes.byref(sA)); clib.reb_simulation_move_to_hel(ctypes.byref(sB))
+                    efd = 0.0
+                    for i in range(N):
+                        for ci, k in enumerate(COMPS6):
+                            fd = (getattr(sB.particles[i], k) - getattr(sA.particles[i], k)) / hstep
+                            efd = max(efd, abs(fd - posth[index + i][1 + ci]))
+                    note("move_to_hel_var_vs_finite_differences", efd if efd < 1e-3 else 0.0)
+                    if not efd <= 1e-7 * max([1.0] + [abs(x) for row in pre for x in row[1:]]):      # rounding of the difference quotient: ~ulp*scale/h
+                        hel_fd_bad += 1
+                        untouched = all(posth[index + i] == pre[index + i] for i in range(N))
+                        fails.append(("C20:move_to_hel-variations" if untouched else "move-to-hel-var-unexpected",
+                                      "variational particles after move_to_hel differ from the finite difference of two shadow simulations moved to hel (%.3g)%s"
+                                      % (efd, ": they are left untouched" if untouched else ""),
+                                      dict(N=N, index=index, pre=pre, h=hstep, err=efd)))
+            c.cov["move_to_hel_shadow_simulation_cases"] = hel_fd
+            c.cov["move_to_hel_shadow_simulation_disagreements"] = hel_fd_bad
             c.count(("move_to_hel", N, case % 4), nontrivial=N >= 2)
             # ---------------- imul / iadd / isub on all N particles (real + variational)
             other, _, _ = make_sim(r, 0) if r.chance(0.2) else (None, None, None)
@@ -963,8 +1053,17 @@ def frame(c, rebound, exe):
     if len(got) != len(lines):
         c.corr_break("drv_c20 returned %d lines for %d frame ops" % (len(got), len(lines)))
         return
+    hel_match = {"move_to_hel_var0": [0, 0], "move_to_hel_var1": [0, 0]}
+    hel_bad = None
     for g, e, mt, l in zip(got, expect, meta, lines):
         per[mt[0]] = per.get(mt[0], 0) + 1
+        if mt[0] in hel_match:
+            hel_match[mt[0]][0] += 1
+            if g.split() == e.split():
+                hel_match[mt[0]][1] += 1
+            elif hel_bad is None and mt[0] == "move_to_hel_var0":
+                hel_bad = dict(op_line=l[:1000], model=g[:600], impl=e[:600])
+            continue
         if g.split() == e.split():
             continue
         nbit += 1
@@ -985,12 +1084,22 @@ def frame(c, rebound, exe):
             if first is None:
                 first = dict(routine=mt[0], component=mt[1], N=mt[2], op_line=l[:2000], model=g[:1000], impl=e[:1000])
     c.cov["frame_model_lines"] = len(lines)
+    hv0, hv1 = hel_match["move_to_hel_var0"], hel_match["move_to_hel_var1"]
+    tp_votes = {k: v for k, v in hel_votes.items() if v}
+    if hv0[0] == hv0[1] and not tp_votes.get("1") and not tp_votes.get("x"):
+        helvar = "as found (variational particles untouched, finding C20:move_to_hel-variations)"
+    elif hv1[0] == hv1[1] and not tp_votes.get("0") and not tp_votes.get("x"):
+        helvar = "repaired (fixes/C20-move-to-hel-variations.diff)"
+    else:
+        helvar = "neither"
+        c.corr_break("reb_simulation_move_to_hel treats variational particles like neither model variant (as found %d/%d, repaired %d/%d, test-particle configs %r)"
+                     % (hv0[1], hv0[0], hv1[1], hv1[0], tp_votes), hel_bad)
+    c.cov["move_to_hel_variational_model_variant_matching_the_code"] = helvar
     c.cov["frame_lines_per_routine"] = per
     c.cov["frame_bitwise_mismatches_within_tolerance"] = nbit - ndis
     c.cov["frame_disagreements"] = ndis
     c.cov["frame_case_histogram"] = dict(sorted(hist.items()))
     c.cov["frame_worst_errors_measured"] = {k: float("%.3g" % v) for k, v in sorted(worst.items())}
-    c.cov["move_to_hel_leaves_variational_particles_untouched_cases"] = untouched_hel
     if ndis:
         c.corr_break("%d frame model/implementation lines differ; first: %s" % (ndis, first["routine"]), first)
     seen = set()
@@ -1065,6 +1174,100 @@ def units(c, rebound, exe, parsed, ref):
     c.cov["units_disagreements"] = ndis
     if len(got) != len(lines) or ndis:
         c.corr_break("%d unit-conversion model/implementation lines differ; first: %s" % (ndis, first and first["function"]), first)
+
+    # ---- tie 3: the unit state machine (Simulation.units setter/getter, update_units, convert_particle_units,
+    #      manual sim.G, sim.add) on random operation sequences through the real Python API vs RV/Model/UnitsState.lean
+    lnames, tnames, mnames = list(Ls), list(Ts), list(Ms)
+    nseq = 1500 if c.thorough else 250
+    slines, sexpect, smeta = [], [], []
+    ophist = {}
+    for case in range(nseq):
+        r = rng.fork()
+        sim = rebound.Simulation()
+        toks = ["useq", d2h(U.G_SI), d2h(sim.G)]
+        status = []
+        desc = []
+        for st_ in range(r.randint(3, 9)):
+            kind = r.choice(["set", "set", "conv", "conv", "conv", "G", "add", "add"])
+            if st_ == 0 and r.chance(0.75):
+                kind = "set"        # most sequences start by choosing units (otherwise every convert is refused)
+            if kind in ("set", "conv"):
+                tr = r.choice(triples)
+                bad = r.chance(0.12)
+                if bad:
+                    spell = r.choice([("au", "yr"), ("au", "yr", "furlong"), ("kg", "msun", "yr"), ("au", "pc", "s")])
+                    toks.append("S!" if kind == "set" else "C!")
+                else:
+                    spell = list(tr)
+                    r.shuffle(spell)
+                    if r.chance(0.3):
+                        spell = [x.upper() for x in spell]
+                    toks += ["S" if kind == "set" else "C", str(lnames.index(tr[0])), str(tnames.index(tr[1])), str(mnames.index(tr[2])),
+                             d2h(Ls[tr[0]]), d2h(Ts[tr[1]]), d2h(Ms[tr[2]])]
+                try:
+                    if kind == "set":
+                        sim.units = tuple(spell)
+                    else:
+                        sim.convert_particle_units(*spell)
+                    status.append("ok")
+                except AttributeError as ex:
+                    status.append("populated" if kind == "set" else "notset")
+                except Exception as ex:
+                    status.append("bad")
+                desc.append((kind, tuple(spell), status[-1]))
+            elif kind == "G":
+                g = r.loguniform(1e-12, 1e3)
+                sim.G = g
+                toks += ["G", d2h(g)]
+                status.append("ok")
+                desc.append(("G", g, "ok"))
+            else:
+                vals = [r.normal() * r.loguniform(1e-3, 1e3) for _ in range(11)]
+                vals[0] = abs(vals[0]); vals[4] = abs(vals[4])
+                sim.add(m=vals[0], x=vals[1], y=vals[2], z=vals[3], r=vals[4], vx=vals[5], vy=vals[6], vz=vals[7])
+                pl = sim.particles[sim.N - 1]
+                pl.ax, pl.ay, pl.az = vals[8], vals[9], vals[10]
+                toks += ["A"] + [d2h(v) for v in vals]
+                status.append("ok")
+                desc.append(("add", None, "ok"))
+            ophist[kind + ":" + status[-1]] = ophist.get(kind + ":" + status[-1], 0) + 1
+        un = sim.units
+        if un["length"] is None and un["time"] is None and un["mass"] is None:
+            us = "none"
+        else:
+            try:
+                us = "%d,%d,%d" % (lnames.index(un["length"]), tnames.index(un["time"]), mnames.index(un["mass"]))
+            except ValueError:
+                us = "garbled:%r" % (un,)
+        fin = " ".join(status) + " | " + us + " " + d2h(sim.G) + " " + str(sim.N) + " " + \
+            " ".join(" ".join(d2h(getattr(pp, f)) for f in ["m", "x", "y", "z", "r", "vx", "vy", "vz", "ax", "ay", "az"]) for pp in sim.particles)
+        slines.append(" ".join(toks)); sexpect.append(fin.strip()); smeta.append(desc)
+        c.count(("useq", tuple(k for k, _, _ in desc)[:4], case % 8))
+    sgot = run_driver(exe, slines)
+    sdis = 0
+    sfirst = None
+    sbit = 0
+    for g, e, mt, l in zip(sgot, sexpect, smeta, slines):
+        if g.strip() == e:
+            continue
+        sbit += 1
+        okk = False
+        try:
+            gh, gt = g.strip().split(" | "); eh, et = e.split(" | ")
+            gtk, etk = gt.split(), et.split()
+            if gh == eh and gtk[0] == etk[0] and gtk[2] == etk[2] and len(gtk) == len(etk):
+                okk = all(ulps(h2d(a), h2d(b), abs(h2d(b))) <= 64 for a, b in zip([gtk[1]] + gtk[3:], [etk[1]] + etk[3:]))
+        except Exception:
+            okk = False
+        if not okk:
+            sdis += 1
+            sfirst = sfirst or dict(ops=mt, op_line=l[:1500], model=g[:800], impl=e[:800])
+    c.cov["units_state_machine_sequences"] = len(slines)
+    c.cov["units_state_machine_op_histogram"] = dict(sorted(ophist.items()))
+    c.cov["units_state_machine_bitwise_mismatches_within_tolerance"] = sbit - sdis
+    c.cov["units_state_machine_disagreements"] = sdis
+    if len(sgot) != len(slines) or sdis:
+        c.corr_break("%d unit state-machine sequences differ between rebound.Simulation and the model; first ops: %s" % (sdis, sfirst and sfirst["ops"]), sfirst)
 
     # ---- search 1: hash_to_unit(hash(u)) = u for every name; unknown / incomplete triples rejected
     clib.reb_hash.restype = ctypes.c_uint32
@@ -1258,6 +1461,12 @@ def run(c):
     except Exception as ex:
         raise Infra("extract_c20 failed: %r" % (ex,))
     changed = write_if_changed(os.path.join(LEAN, "RV", "Gen", "C20Units.lean"), txt)
+    try:
+        ftxt, ferrs, fdone = extract_c20.translate_functions(os.path.join(REPO, "rebound", "units.py"))
+    except Exception as ex:
+        raise Infra("extract_c20.translate_functions failed: %r" % (ex,))
+    changed = write_if_changed(os.path.join(LEAN, "RV", "Gen", "C20UnitsFns.lean"), ftxt) or changed
+    c.cov["translator_functions"] = {"translated": fdone, "errors": ferrs}
     c.cov["translator"] = {"regenerated": bool(changed), "parse_errors": parsed["errors"],
                            "entries": {k: len(v) for k, v in parsed["tables"].items()}}
     c.cov["rule"] = (
